@@ -1129,9 +1129,17 @@ func (rr *DNSResourceRecord) encode(data []byte, offset int, opts gopacket.Seria
 
 	switch rr.Type {
 	case DNSTypeA:
-		copy(data[noff+10:], rr.IP.To4())
+		ip := rr.IP.To4()
+		if ip == nil {
+			return 0, errDNSBadIPv4
+		}
+		copy(data[noff+10:], ip)
 	case DNSTypeAAAA:
-		copy(data[noff+10:], rr.IP)
+		ip := rr.IP.To16()
+		if ip == nil {
+			return 0, errDNSBadIPv6
+		}
+		copy(data[noff+10:], ip)
 	case DNSTypeNS:
 		if _, err = encodeDNSName(rr.NS, rr.rdataMeta(), data, noff+10); err != nil {
 			return 0, err
@@ -1931,6 +1939,9 @@ var (
 	errDNSPointerOffsetTooHigh = errors.New("dns offset pointer too high")
 	errDNSIndexOutOfRange      = errors.New("dns index walked out of range")
 	errDNSNameHasNoData        = errors.New("no dns data found for name")
+
+	errDNSBadIPv4 = errors.New("dns A record without a valid IPv4 address")
+	errDNSBadIPv6 = errors.New("dns AAAA record without a valid IPv6 address")
 
 	errCharStringMissData = errors.New("Insufficient data for a <character-string>")
 
